@@ -333,6 +333,22 @@ func (b *Builder) MakeScript(a Action) ([]byte, []int, error) {
 				to = int(a.K[0])
 			}
 			call(d.Hash, "xfer", tok, b.PartyHash(to), a.N)
+		case "vote_self": // the CONTRACT votes for candidate B with the NEO it holds (-1: withdraws its vote)
+			var pub any
+			if a.B >= 0 {
+				pub = candPub(a.B).Bytes()
+			}
+			call(d.Hash, "call", nativehashes.NeoToken, "vote", int64(callflag.All), []any{d.Hash, pub})
+		case "set_onmint": // what the contract does when GAS is minted to it: Policy.blockAccount(party B) (S2 == ""), see KContract
+			it := stackitem.NewArray([]stackitem.Item{
+				stackitem.NewByteArray(nativehashes.PolicyContract.BytesBE()), stackitem.NewByteArray([]byte("blockAccount")),
+				stackitem.NewBigInteger(big.NewInt(int64(callflag.All))),
+				stackitem.NewArray([]stackitem.Item{stackitem.NewByteArray(b.PartyHash(a.B).BytesBE())})})
+			raw, err := stackitem.Serialize(it)
+			if err != nil {
+				return nil, nil, err
+			}
+			call(d.Hash, "put", []byte("onmint"), raw)
 		case "put_then_fail": // storage write followed by a throw: the write must not survive
 			call(d.Hash, "put", []byte(a.K), []byte(a.V))
 			call(d.Hash, "fail")
